@@ -9,6 +9,7 @@ CONSTANTS
   TieBreak = "hash"
   MaxLen = 5
   WithList = FALSE
+  WithRaw = FALSE
   Ops = {"en", "dis", "rs", "enq", "blk", "unb"}
 INVARIANTS Dump
 CHECK_DEADLOCK FALSE
